@@ -401,6 +401,59 @@ def _itf_set(v):
     return []
 
 
+def _apalache_forall(workdir, props_module, dep_files, events, schema, cinit_body, pred, timeout):
+    """One Apalache run: does `\\A i \\in DOMAIN Events : pred` hold?  pred is TLA+ text over `e`."""
+    shutil.rmtree(workdir, ignore_errors=True)
+    os.makedirs(workdir)
+    for m in dep_files:
+        shutil.copy(os.path.join(SPECS, m + ".tla"), workdir)
+    render_events_module(os.path.join(workdir, "WideData.tla"), events, schema)
+    with open(os.path.join(workdir, "W.tla"), "w") as f:
+        f.write("---- MODULE W ----\nEXTENDS %s, WideData\nVARIABLE\n  \\* @type: Int;\n  x\n" % props_module)
+        f.write("CInit == %s\nInit == x = 0\nNext == UNCHANGED x\n" % cinit_body)
+        f.write("Inv == \\A i \\in DOMAIN Events : LET e == Events[i] IN %s\n====\n" % pred)
+    cmd = ["apalache-mc", "check", "--cinit=CInit", "--inv=Inv", "--length=0",
+           "--out-dir=" + os.path.join(workdir, "out"), "W.tla"]
+    rc, out, w = sh(cmd, cwd=workdir, timeout=timeout, env={"JVM_ARGS": "-Xmx4g"})
+    if rc == 0 and "The outcome is: NoError" in out:
+        shutil.rmtree(workdir, ignore_errors=True)
+        return True
+    if rc == 12 or "The outcome is: Error" in out:
+        return False
+    raise ToolError("apalache failed (rc=%d) in %s:\n%s" % (rc, workdir, out[-3000:]))
+
+
+def apalache_groups(ctx, props_module, dep_files, schema, cinit_body, jobs, parallel=6, timeout=900):
+    """Wide tier. jobs: list of (label, events, pred_text). Each job is one Apalache run checking
+    pred on every event of the group (unbounded integers); a failing group is bisected to the
+    offending events. Returns {label: [0-based indices into that job's events]}."""
+    from concurrent.futures import ThreadPoolExecutor
+    t0 = time.time()
+
+    def find_bad(label, events, pred, base, depth):
+        d = os.path.join(ctx.wd, "apalache", "%s-%d-%d" % (re.sub(r"\W", "_", label), base, len(events)))
+        ok = _apalache_forall(d, props_module, dep_files, events, schema, cinit_body, pred, timeout)
+        if ok:
+            return []
+        if len(events) == 1:
+            return [base]
+        h = len(events) // 2
+        bad = find_bad(label, events[:h], pred, base, depth + 1)
+        if len(bad) >= 3:
+            return bad
+        return bad + find_bad(label, events[h:], pred, base + h, depth + 1)
+
+    res = {}
+    with ThreadPoolExecutor(max_workers=parallel) as ex:
+        futs = {label: ex.submit(find_bad, label, events, pred, 0, 0) for (label, events, pred) in jobs if events}
+        for label, f in futs.items():
+            res[label] = f.result()
+    n = sum(len(j[1]) for j in jobs)
+    log("  apalache %s: %d groups, %d events, %d offending, %.1fs" % (
+        props_module, len(jobs), n, sum(len(v) for v in res.values()), time.time() - t0))
+    return res
+
+
 def apalache_events(ctx, root_module, deps, events, schema, cinit, set_vars, timeout=1500, chunk=250):
     """Check `AllClean` of root_module on the events, in chunks. Returns {var: [global indices]}.
     set_vars: names of Set(Int) state variables holding offending (1-based) event indices."""
